@@ -90,6 +90,9 @@ type slot struct {
 	ended   bool
 	broken  bool
 	expOpen map[int]bool // the hosts the history expected when the iterator was created
+	// (w-s11f) the state of a host object changed during the life of the iterator (the iterator reads it at every call)
+	stch      bool
+	stTouched map[int]bool
 }
 
 type burstCall struct {
@@ -810,7 +813,14 @@ func (w *world) exec(op string) (res string) {
 			return "bad-op"
 		}
 		w.lastPlain = nil
-		w.slots = map[int]*slot{} // the state of the hosts is fixed during the life of an iterator
+		// (w-s11f) live iterators stay alive: they read the state of a host at the call that reaches it
+		for _, sl := range w.slots {
+			sl.stch = true
+			if sl.stTouched == nil {
+				sl.stTouched = map[int]bool{}
+			}
+			sl.stTouched[atoi(f[1])] = true
+		}
 		gocql.VerifSetHostUp(h, f[2] == "1")
 		return "ok"
 	case "ctr":
@@ -1161,15 +1171,18 @@ func (w *world) exec(op string) (res string) {
 					return "crash:property violated on the real code: down host offered"
 				}
 			}
-			if v := w.headViolation(sl.head, sl.given, 1000, !sl.ended); v != "" {
-				return "crash:property violated on the real code: " + v
+			// (the specified head and the history oracle are stated for the host states at the Pick: not after a state change)
+			if !sl.stch {
+				if v := w.headViolation(sl.head, sl.given, 1000, !sl.ended); v != "" {
+					return "crash:property violated on the real code: " + v
+				}
 			}
-			if sl.ended && sl.epoch == w.epoch {
+			if sl.ended && sl.epoch == w.epoch && !sl.stch {
 				if v := w.oracle(sl.given, len(sl.head), sl.dupReps, sl.headAny, sl.fresh); v != "" {
 					return "crash:property violated on the real code: " + v + " offered=" + w.showIDs(sl.given)
 				}
 			}
-			if sl.ended && sl.epoch != w.epoch && !w.alias() && !w.hot {
+			if sl.ended && (sl.epoch != w.epoch || sl.stch) && !w.alias() && !w.hot {
 				// topology calls happened during the life of the iterator: a host that the history expected when the iterator
 				// was created, still expects, and that no call was about in between, must have been offered
 				touched := map[int]bool{}
@@ -1184,7 +1197,7 @@ func (w *world) exec(op string) (res string) {
 				}
 				for _, id := range w.sortedIDs() {
 					h := w.hosts[id]
-					if sl.expOpen[id] && !touched[id] && !w.taint[id] && w.stat(id).expected(h.IsUp()) && !seen[h] {
+					if sl.expOpen[id] && !touched[id] && !sl.stTouched[id] && !w.taint[id] && w.stat(id).expected(h.IsUp()) && !seen[h] {
 						return fmt.Sprintf("crash:property violated on the real code: host %d was known and up during the whole life of the iterator (no call about it) but is not offered: offered=%s", id, w.showIDs(sl.given))
 					}
 				}
@@ -1527,6 +1540,9 @@ func (w *world) headViolation(head, got []*gocql.HostInfo, limit int, partial bo
 func (w *world) slotExcluded(sl *slot) string {
 	if sl.epoch != w.epoch {
 		return "mutated"
+	}
+	if sl.stch {
+		return "state-changed"
 	}
 	return w.exclusion(sl.reps, sl.known, sl.fresh)
 }
@@ -2468,6 +2484,106 @@ func (g *gen) bulkScenario(idx int) {
 			g.emit("addhosts "+subset(true), "addhosts"+cls+"/known-only", true)
 		}
 		observe()
+	}
+}
+
+// lazyScenario (family 6, "a node goes down / comes back while a query is being retried"): the iterators read the
+// state of a host object at the call that reaches it (replica phase, remote buckets, fallback iterator). Every policy
+// kind, token-aware 3 of 4 (replica table of keyspace 0 computed for the session keyspace or installed through the
+// hook; ShuffleReplicas / NonLocalReplicasFallback random), 4..8 hosts; 4 rounds: two iterators opened on one token,
+// 0..2 calls of the first, then 1..4 times: setState(up|down) of a random host - half of the time followed by the
+// notifier call the session makes (HostDown / HostUp) - and one call of a random iterator; then both drained.
+// Compared call by call with the model's lazy iterator (Policies.LIter); the harness checks on the real iterators:
+// no nil host, no host that is down at the call that offers it, no host twice per iterator
+// (C11_lazy_iterator_only_up / C11_lazy_iterator_no_host_twice), every host expected throughout and untouched offered.
+func (g *gen) lazyScenario(idx int) {
+	r := g.r
+	g.kind = []string{"rr", "dc", "rack"}[idx%3]
+	g.ta = idx%4 != 3
+	shuffle := g.ta && r.Intn(3) == 0
+	g.nonlocal = g.ta && r.Bool()
+	g.ldc, g.lrack = 0, 0
+	g.emit(fmt.Sprintf("reset %s %s 0 0 %s %s 1", g.kind, b01(g.ta), b01(shuffle), b01(g.nonlocal)), "reset/"+g.kind+"/ta"+b01(g.ta), false)
+	g.n = 4 + r.Intn(5)
+	g.sess = -1
+	for id := 1; id <= g.n; id++ {
+		dc, rack := 0, 0
+		if r.Intn(4) == 0 {
+			dc = 1
+		}
+		if r.Intn(3) == 0 {
+			rack = 1
+		}
+		g.emit(fmt.Sprintf("host %d %d %d %d %d", id, id, dc, rack, id*100), "host", false)
+	}
+	useSess := g.ta && r.Bool()
+	if useSess {
+		g.sess = 0
+		g.emit("sessks 0", "sessks", false)
+		g.emit(fmt.Sprintf("ksmeta 0 %d", 2+r.Intn(2)), "ksmeta", false)
+	}
+	for id := 1; id <= g.n; id++ {
+		g.emit(fmt.Sprintf("add %d", id), "add", true)
+	}
+	if g.ta && !useSess {
+		var parts []string
+		for t := 0; t < 2+r.Intn(2); t++ {
+			k := 2 + r.Intn(3)
+			if k > g.n {
+				k = g.n
+			}
+			var ids []string
+			for _, j := range rngPerm(r, g.n)[:k] {
+				ids = append(ids, strconv.Itoa(j+1))
+			}
+			parts = append(parts, fmt.Sprintf("%d:%s", 300*(t+1), strings.Join(ids, ",")))
+		}
+		g.emit("repl 0 "+strings.Join(parts, " "), "repl", false)
+	}
+	ks, cls := "0", "/"+g.kind+"/ta"
+	if !g.ta {
+		ks, cls = "-", "/"+g.kind+"/plain"
+	}
+	perms := func() string {
+		if g.w.shuf {
+			return permsFor(int64(r.Intn(seedSpace)))
+		}
+		return "-"
+	}
+	for round := 0; round < 4; round++ {
+		tk := "-"
+		if g.ta {
+			tk = strconv.Itoa(r.Intn((g.n + 1) * 100))
+		}
+		g.emit(fmt.Sprintf("open 0 %s %s %s", ks, tk, perms()), "open"+cls, true)
+		g.emit(fmt.Sprintf("open 1 %s %s %s", ks, tk, perms()), "open"+cls, true)
+		if k := r.Intn(3); k > 0 {
+			g.emit(fmt.Sprintf("next 0 %d", k), "next"+cls+"/lazy-state", true)
+		}
+		for k := 1 + r.Intn(4); k > 0; k-- {
+			id := 1 + r.Intn(g.n)
+			v := r.Intn(2)
+			g.emit(fmt.Sprintf("state %d %d", id, v), "state/alive", true)
+			if r.Bool() && g.w.stat(id).known {
+				if v == 0 {
+					g.emit(fmt.Sprintf("hdown %d", id), "hdown", true)
+				} else {
+					g.emit(fmt.Sprintf("hup %d", id), "hup", true)
+				}
+			}
+			g.emit(fmt.Sprintf("next %d 1", r.Intn(2)), "next"+cls+"/lazy-state", true)
+		}
+		g.emit("next 0 1000", "next"+cls+"/lazy-state", true)
+		g.emit("next 1 1000", "next"+cls+"/lazy-state", true)
+		// everything up and listed again for the next round
+		for id := 1; id <= g.n; id++ {
+			if h := g.w.hosts[id]; !h.IsUp() {
+				g.emit(fmt.Sprintf("state %d 1", id), "state", false)
+			}
+			if st := g.w.stat(id); st.known && st.last == "hdown" {
+				g.emit(fmt.Sprintf("hup %d", id), "hup", true)
+			}
+		}
 	}
 }
 
@@ -3421,6 +3537,14 @@ func main() {
 	}
 	for i := 0; i < nbk; i++ {
 		g.bulkScenario(i)
+	}
+	// (w-s11f) LAZY-STATE family: the up/down state of host objects changes while iterators are alive
+	nlz := 60
+	if tier == "thorough" {
+		nlz = 1800
+	}
+	for i := 0; i < nlz; i++ {
+		g.lazyScenario(i)
 	}
 	extra := map[string]interface{}{}
 	if tier == "thorough" {
